@@ -8,7 +8,7 @@ COMPONENTS = ["ring"]
 T4 = []
 PROOF_MODULES = ["GrpcProofs.Properties.C37"]
 THEOREMS = ["GrpcProofs.C37." + t for t in (
-    "ring_order_independent", "ring_size_bounds", "ring_size_le_max_any_arithmetic", "ring_nonempty", "entries_proportional", "ring_sorted",
+    "ring_order_independent", "balancer_ring_follows_current_config", "ring_size_bounds", "ring_size_le_max_any_arithmetic", "ring_nonempty", "entries_proportional", "ring_sorted",
     "search_spec", "pick_first_at_least", "pick_wraps_to_first", "next_is_clockwise",
     "walk_skips_transient_failure", "walk_all_failed_returns_first_entry",
     "random_walk_first_ready", "random_walk_at_most_one_connect", "random_walk_no_ready")]
@@ -22,7 +22,7 @@ LEVEL_TEXT = ("Machine-checked Lean proof, over exact rational arithmetic, that 
               "hash; that ring.pick (literal sort.Search port) returns the first entry with hash >= h and wraps to entry 0; that "
               "a request-hash pick goes to the first non-TRANSIENT_FAILURE entry clockwise (first entry if all failed) and a "
               "random-hash pick to the first READY endpoint with at most one exitIdle, none if an endpoint is CONNECTING.")
-LEVEL_NOTE = ("PARTIAL: the real newRing computes in float64; apart from ring_size_le_max_any_arithmetic (|ring| <= max_ring_size "
+LEVEL_NOTE = ("Balancer level: the regeneration decision of ringhash.go (UpdateState/UpdateClientConnState) is ported as balUpdate; balancer_ring_follows_current_config proves the held ring is newRing(current endpoints, current bounds) after any update sequence, and the real balancer (registered builder, endpointsharding child, stub ClientConn) is driven through such sequences. PARTIAL: the real newRing computes in float64; apart from ring_size_le_max_any_arithmetic (|ring| <= max_ring_size "
               "for every arithmetic incl. float64, true since the F14 repair 9cc3b57 put `len(items) < maxRingSize` into the fill "
               "loop) the theorems are about the same definition instantiated with exact rationals; the float instance is diffed "
               "bit-for-bit against the Go code and the property's predicates (exact, no tolerance) are monitored on the real ring. "
@@ -38,7 +38,10 @@ ASSUMPTIONS = ["hash keys of the endpoints are distinct", "xxhash values of dist
 RULE = ("ring: endpoint sets of 1..24 endpoints (equal, small, skewed 1..1000, huge up to 2^31 weights; random printable keys) "
         "with bounds (1,1) (4,8) (10,10) (100,100) (64,128) (1024,4096) (min>n) (max<n), each set built twice in different "
         "orders; then pick at every entry hash and hash+-1, 0, 2^64-1 and random hashes, next at every index, walk/rwalk with "
-        "random endpoint states (all-TF, single READY/IDLE/CONNECTING, mixed) from several hashes. One ring per case.")
+        "random endpoint states (all-TF, single READY/IDLE/CONNECTING, mixed) from several hashes. One ring per case. bal: sequences of "
+        "resolver + LB-config updates through the real ringhash balancer (registered builder, endpointsharding child): only min, only "
+        "max, both or no bound changed with the endpoints unchanged, interleaved with endpoint add/remove/weight changes; the ring "
+        "the balancer holds after every update is judged against the bounds of that update.")
 
 W64 = 1 << 64
 M64 = W64 - 1
@@ -187,6 +190,63 @@ def ring_case(rng, keys, ws, mn, mx, n_pick, n_walk):
     return ops
 
 
+def bal_case(rng):
+    """Resolver + LB-config updates through the REAL ringhash balancer: the same endpoint set with only min_ring_size,
+    only max_ring_size, both or neither changed; endpoint additions / removals / weight changes / reorderings in between."""
+    n = rng.choice([1, 2, 3, 3, 4, 6])
+    keys = rand_keys(rng, n + 2)
+    cur = list(zip(keys[:n], rand_weights(rng, n)))
+    spare = keys[n:]
+    mn = rng.choice([1, 4, 6, 10, 20, 40])
+    mx = mn + rng.choice([0, 1, 5, 40, 60])
+    ops = []
+    sent = set()
+
+    cache = {}
+
+    def tab(k, j):
+        if (k, j) not in cache:
+            cache[(k, j)] = xxh64(("%s_%d" % (k, j)).encode())
+        return cache[(k, j)]
+
+    def emit():
+        order = list(cur)
+        rng.shuffle(order)
+        parts = []
+        for k, w in order:
+            # the table (independent xxhash) is sent once per key; 200 entries cover every bound used here
+            # the independent xxhash table travels with every update (so that any sub-sequence replays): the first
+            # one is long enough for every bound used in the case (a ring that is legitimately kept needs it later)
+            hs = ";".join(str(tab(k, j)) for j in range((mx_cap + 2) if k not in sent else min(mx + 2, mx_cap + 2)))
+            sent.add(k)
+            parts.append("%s:%d:%s" % (k, w, hs))
+        ops.append("bal %d %d %s" % (mn, mx, ",".join(parts)))
+
+    mx_cap = 200
+    emit()
+    for _ in range(rng.randrange(4, 12)):
+        r = rng.random()
+        if r < 0.25:
+            mn = rng.randrange(1, mx + 1)                      # only min changes
+        elif r < 0.50:
+            mx = rng.randrange(mn, min(mn + 80, mx_cap) + 1)   # only max changes
+        elif r < 0.60:
+            mn = rng.randrange(1, 60); mx = mn + rng.randrange(0, 60)   # both
+        elif r < 0.70:
+            pass                                              # identical update
+        elif r < 0.80 and spare:
+            cur.append((spare.pop(), rng.randrange(1, 10)))
+        elif r < 0.88 and len(cur) > 1:
+            spare.append(cur.pop(rng.randrange(len(cur)))[0])
+        else:
+            i = rng.randrange(len(cur))
+            cur[i] = (cur[i][0], rng.randrange(1, 20))
+        emit()
+        if rng.random() < 0.3 and False:
+            pass
+    return ops
+
+
 BOUNDS = [(1, 1), (4, 8), (10, 10), (100, 100), (64, 128), (3, 7), (16, 16), (1, 4096)]
 
 
@@ -206,6 +266,8 @@ def gen(rng, tier):
             mn = rng.randrange(1, 40)
             mx = mn + rng.randrange(0, 40)
         yield Case("ring", ring_case(rng, keys, ws, mn, mx, 4, 8), "ring-%d" % j)
+    for j in range({"quick": 80, "thorough": 2000, "search": 1000}[tier]):
+        yield Case("ring", bal_case(rng), "balancer-%d" % j)
     for j in range(n_big):
         n = rng.randrange(2, 40)
         keys = rand_keys(rng, n)
@@ -221,4 +283,4 @@ def gen(rng, tier):
 
 
 def nontrivial(case, impl_lines):
-    return any(op.startswith("ring ") for op in case.ops)
+    return any(op.startswith("ring ") or op.startswith("bal ") for op in case.ops)
